@@ -169,8 +169,8 @@ PROBES = [
     # ---- C20
     ("C20", "break", "text mode on the remote side", CL, 'with conn.builtin.open(remotepath, "wb") as rf:', 'with conn.builtin.open(remotepath, "w") as rf:'),
     ("C20", "break", "filter not passed down", CL, "upload(conn, lfn, rfn, filter=filter, ignore_invalid=True, chunk_size=chunk_size)", "upload(conn, lfn, rfn, ignore_invalid=True, chunk_size=chunk_size)"),
-    ("C20", "break", "write before the emptiness test", CL, "                buf = rf.read(chunk_size)\n                if not buf:\n                    break\n                lf.write(buf)",
-     "                lf.write(buf)\n                buf = rf.read(chunk_size)\n                if not buf:\n                    break"),
+    ("C20", "break", "short last chunk dropped", CL, "                buf = rf.read(chunk_size)\n                if not buf:\n                    break\n                lf.write(buf)",
+     "                buf = rf.read(chunk_size)\n                if len(buf) < chunk_size:\n                    break\n                lf.write(buf)"),
     ("C20", "break", "filter inverted", CL, "    for fn in os.listdir(localpath):\n        if not filter or filter(fn):", "    for fn in os.listdir(localpath):\n        if filter and filter(fn):"),
 ]
 
